@@ -191,7 +191,7 @@ def run_flips(ctx, jinja2, table, only=None):
                 continue
             toks = [f"{only['pos']}.{only['bit']}"]
         else:
-            toks = [f"{p}.{b}" for p, b in flip_positions(ctx.rng, len(data), len(bc_magic), ctx.size(30, 600))]
+            toks = [f"{p}.{b}" for p, b in flip_positions(ctx.rng, len(data), len(bc_magic), ctx.size(30, 250))]
         p = subprocess.run([lib.PY, "-c", "from harness import c27; c27.flip_child()", str(i)] + toks, capture_output=True, text=True,
                            env=dict(lib.IMPL_ENV, PYTHONPATH=lib.SRC + ":" + lib.ROOT), timeout=600, cwd=lib.ROOT)
         rows = [json.loads(l) for l in p.stdout.splitlines() if l.startswith("{")]
@@ -503,11 +503,20 @@ def run_shared(ctx, jinja2, only=None):
     # keep_trailing_newline — in both directions where the direction matters
     pairs = [(0, 0), (0, 1), (1, 0), (0, 2), (0, 3), (3, 0), (1, 1), (0, 4), (4, 0), (0, 5), (0, 6)]
     hist = [list(h) for n in range(1, L + 1) for h in itertools.product(ops_alpha, repeat=n)]
-    extra = [list(h) for h in itertools.product(ops_alpha, repeat=L + 1)] if ctx.tier == "thorough" else \
+    extra = [list(h) for i, h in enumerate(itertools.product(ops_alpha, repeat=L + 1)) if i % 3 == 0] if ctx.tier == "thorough" else \
         [[ctx.rng.choice(ops_alpha) for _ in range(ctx.rng.randint(4, 7))] for _ in range(150)]
-    cases = [(p, h) for p in pairs for h in hist] + [(p, h) for p in ((0, 1), (0, 0), (3, 0)) for h in extra]
+    cases = [(p, h) for p in pairs for h in hist] + [(p, h) for p in (((0, 1), (0, 0), (3, 0)) if ctx.tier == "quick" else ((0, 1), (0, 0))) for h in extra]
+    # the same histories on the other backends / options: memcached client with a prefix and a timeout ("clear" = the
+    # client loses its entries), a FileSystemBytecodeCache with a custom pattern
+    backend = ["fs"] * len(cases)
+    for bk in ("mem", "fspat", "overlay"):
+        # "overlay": the second environment is env0.overlay(autoescape=True), which inherits env0's bytecode_cache
+        extra_cases = [(p, h) for p in (((0, 0), (0, 1)) if bk != "overlay" else ((0, 1),)) for h in hist if len(h) <= 3]
+        cases += extra_cases
+        backend += [bk] * len(extra_cases)
     if only is not None:
         cases = [(tuple(only["options"]), list(only["ops"]))]
+        backend = [only.get("backend", "fs")]
     model = ctx.driver("bc", [f"S {p[0]} {p[1]} 7 " + " ".join(h) for p, h in cases])
     refcache = {}
 
@@ -520,13 +529,34 @@ def run_shared(ctx, jinja2, only=None):
             refcache[k] = render(lenv.template_class.from_code(lenv, code, lenv.make_globals(None), None))
         return refcache[k]
 
-    for (p, h), ml in zip(cases, model):
+    from jinja2.bccache import MemcachedBytecodeCache
+
+    class MemClient:
+        def __init__(self):
+            self.d, self.timeouts = {}, []
+
+        def get(self, key):
+            return self.d.get(key)
+
+        def set(self, key, value, timeout=None):
+            self.timeouts.append(timeout)
+            self.d[key] = value
+
+    for ((p, h), ml), bk in zip(zip(cases, model), backend):
         shutil.rmtree(d, ignore_errors=True)
         os.makedirs(d)
         mapping = {"t": text_of(7)}
-        bcc = FileSystemBytecodeCache(d)
+        client = MemClient()
+        if bk == "mem":
+            bcc = MemcachedBytecodeCache(client, prefix="px/", timeout=77)
+        elif bk == "fspat":
+            bcc = FileSystemBytecodeCache(d, "own-%s.bc")
+        else:
+            bcc = FileSystemBytecodeCache(d)
         loader = jinja2.DictLoader(mapping)
         envs = [make_env(jinja2, p[0], loader, bcc), make_env(jinja2, p[1], loader, bcc)]
+        if bk == "overlay":
+            envs[1] = envs[0].overlay(autoescape=True)
         cur = 7
         got, fail, expect_model = [], None, []
         for o, mo in zip(h, ml.split(";")):
@@ -539,6 +569,7 @@ def run_shared(ctx, jinja2, only=None):
                 continue
             if q[0] == "c":
                 bcc.clear()
+                client.d.clear()
                 got.append("U")
                 expect_model.append("U")
                 continue
@@ -554,11 +585,18 @@ def run_shared(ctx, jinja2, only=None):
             if out != want and not fail:
                 fail = (f"environment {e} (options {p[e]}) rendered {out!r}; compiling the current source with its own "
                         f"options renders {want!r}")
-        case = {"kind": "shared", "options": list(p), "ops": h}
+        case = {"kind": "shared", "options": list(p), "ops": h, "backend": bk}
+        if bk == "mem" and not fail:
+            if any(not k.startswith("px/") or len(k) != 43 for k in client.d) or any(t != 77 for t in client.timeouts):
+                fail = f"memcached keys / timeouts: {sorted(client.d)[:2]} {client.timeouts[:3]} (prefix 'px/', timeout 77 expected)"
+        if bk == "fspat" and not fail:
+            odd = [f for f in os.listdir(d) if not (f.startswith("own-") and f.endswith(".bc"))]
+            if odd:
+                fail = f"files not matching the configured pattern in the cache directory: {odd[:3]}"
         second = any(o.startswith("l:1") for o in h[1:]) and h[0].startswith("l:0")
         ctx.case(sample=dict(case, rendered=got) if second and p == (0, 1) and len(ctx.samples) < 6 else None,
-                 key=("shared", p, tuple(h)) if second else None)
-        ctx.count(f"shared_{'same' if p[0] == p[1] else 'different'}_options")
+                 key=("shared", bk, p, tuple(h)) if second else None)
+        ctx.count(f"shared_{bk}_{'same' if p[0] == p[1] else 'different'}_options")
         if only is not None:
             print("model (as text):", expect_model, "\nimpl :", got, "\noracle:", fail)
         if fail:
@@ -708,6 +746,102 @@ def run_foreign(ctx, jinja2, table, only=None):
     shutil.rmtree(d, ignore_errors=True)
 
 
+# ------------------------------------------------------------------------------------------- constructor options, clear()
+def run_options(ctx, jinja2):
+    """FileSystemBytecodeCache(directory, pattern) / default directory / clear(); MemcachedBytecodeCache(prefix, timeout,
+    ignore_memcache_errors) / clear()"""
+    import stat
+    import tempfile
+    from jinja2.bccache import FileSystemBytecodeCache, MemcachedBytecodeCache
+    d = os.path.join(ctx.bdir, "options")
+    shutil.rmtree(d, ignore_errors=True)
+    os.makedirs(d)
+    src = {"t": "{{ x }}|t", "u": "{{ x }}|u"}
+    problems = []
+
+    def env_for(bcc, **kw):
+        return jinja2.Environment(loader=jinja2.DictLoader(src), bytecode_cache=bcc, cache_size=0, **kw)
+    # two caches with different patterns in ONE directory do not share entries; clear() removes only its own files
+    a, b = FileSystemBytecodeCache(d, "A_%s.c"), FileSystemBytecodeCache(d, "B_%s.c")
+    open(os.path.join(d, "keepme.txt"), "w").write("x")
+    open(os.path.join(d, "A_not-a-key"), "w").write("x")
+    ea, eb = env_for(a), env_for(b, autoescape=True)
+    outs = [ea.get_template("t").render(x="<"), eb.get_template("t").render(x="<"), ea.get_template("u").render(x="<"),
+            eb.get_template("t").render(x="<"), ea.get_template("t").render(x="<")]
+    if outs != ["<|t", "&lt;|t", "<|u", "&lt;|t", "<|t"]:
+        problems.append(f"caches with different patterns in one directory interfere: {outs}")
+    files = sorted(os.listdir(d))
+    if len([f for f in files if f.startswith("A_") and f.endswith(".c")]) != 2 or len([f for f in files if f.startswith("B_")]) != 1:
+        problems.append(f"unexpected cache files {files}")
+    a.clear()
+    left = sorted(os.listdir(d))
+    if [f for f in left if f.startswith("A_") and f.endswith(".c")] or "keepme.txt" not in left or "A_not-a-key" not in left \
+            or len([f for f in left if f.startswith("B_")]) != 1:
+        problems.append(f"clear() of pattern 'A_%s.c' left / removed the wrong files: {left}")
+    if ea.get_template("t").render(x="<") != "<|t" or eb.get_template("t").render(x="<") != "&lt;|t":
+        problems.append("rendering after clear() is wrong")
+    # something that is not a readable file sits at the cache file's name (a directory): a miss on load, an OSError swallowed
+    # on dump (the temp file removed), the template still renders
+    d2 = os.path.join(d, "blocked")
+    os.makedirs(d2)
+    blk = FileSystemBytecodeCache(d2)
+    from jinja2.bccache import Bucket
+    os.makedirs(blk._get_cache_filename(Bucket(None, blk.get_cache_key("t", None), "")))
+    try:
+        e = env_for(blk)
+        if [e.get_template("t").render(x=1), e.get_template("t").render(x=1)] != ["1|t", "1|t"]:
+            problems.append("a directory at the cache file name: wrong rendering")
+        if [f for f in os.listdir(d2) if f.endswith(".tmp")]:
+            problems.append("a directory at the cache file name: temp file left behind")
+    except Exception as ex:  # noqa
+        problems.append(f"a directory at the cache file name makes get_template raise {type(ex).__name__}: {ex}")
+    # the default directory (tempfile.gettempdir() redirected into build/): created private, usable
+    old_tmp = tempfile.tempdir
+    tempfile.tempdir = d
+    try:
+        dflt = FileSystemBytecodeCache()
+        mode = stat.S_IMODE(os.lstat(dflt.directory).st_mode)
+        if os.path.dirname(dflt.directory) != d or mode != stat.S_IRWXU:
+            problems.append(f"default cache directory {dflt.directory} mode {oct(mode)}")
+        e = env_for(dflt)
+        if [e.get_template("t").render(x=1), e.get_template("t").render(x=1)] != ["1|t", "1|t"] or not os.listdir(dflt.directory):
+            problems.append("default cache directory not used")
+        FileSystemBytecodeCache()          # a second instance must accept the existing directory
+    except Exception as ex:  # noqa
+        problems.append(f"default directory: {type(ex).__name__}: {ex}")
+    finally:
+        tempfile.tempdir = old_tmp
+    # memcached: clear() is documented as a no-op; timeout None means set(key, value) without a third argument
+    calls = []
+
+    class Client:
+        def __init__(self):
+            self.d = {}
+
+        def get(self, key):
+            return self.d.get(key)
+
+        def set(self, *args):
+            calls.append(len(args))
+            self.d[args[0]] = args[1]
+    c = Client()
+    m = MemcachedBytecodeCache(c)
+    e = env_for(m)
+    e.get_template("t").render(x=1)
+    m.clear()
+    if calls != [2] or len(c.d) != 1 or not next(iter(c.d)).startswith("jinja2/bytecode/"):
+        problems.append(f"memcached defaults: set called with {calls} arguments, keys {list(c.d)}")
+    if e.get_template("t").render(x=2) != "2|t" or calls != [2]:
+        problems.append("memcached entry not reused after clear() (a no-op)")
+    ctx.case(key=("options",))
+    ctx.count("constructor_options")
+    if problems:
+        ctx.reject({"kind": "options"}, "; ".join(problems), "C27:options")
+    else:
+        ctx.validated()
+    shutil.rmtree(d, ignore_errors=True)
+
+
 # ------------------------------------------------------------------------------------------- names / sources outside UTF-8
 UNI = [("t", "a\ud800b {{ x }}"), ("n\ud800", "plain {{ x }}"), ("t\udfff", "\udc80{{ x }}"), ("é😀", "é😀\x00{{ x }}"),
        ("t", "{{ '\ud800' }}{{ x }}"), ("dir/\ud83d", "half a pair \ud83d {{ x }}")]
@@ -800,6 +934,7 @@ def run(ctx):
     run_crash(ctx, jinja2)
     run_shared(ctx, jinja2)
     run_memcached(ctx, jinja2)
+    run_options(ctx, jinja2)
     run_unicode(ctx, jinja2)
 
 
@@ -823,6 +958,8 @@ def replay(ctx, data):
         run_memcached(ctx, jinja2, only=case)
     elif kind == "unicode":
         run_unicode(ctx, jinja2, only=case)
+    elif kind == "options":
+        run_options(ctx, jinja2)
     elif kind == "foreign":
         run_foreign(ctx, jinja2, regen_table(ctx), only=case)
     else:
